@@ -71,6 +71,114 @@ func (t *tr) pkgSlices() map[string]string {
 	return out
 }
 
+// pkgStringConsts: package-level `const name = "…"` declarations (single strings), by name
+func (t *tr) pkgStringConsts() map[string]string {
+	out := map[string]string{}
+	if t.pkg == nil {
+		return out
+	}
+	for _, f := range t.pkg.files {
+		for _, d := range f.Decls {
+			gd, ok := d.(*ast.GenDecl)
+			if !ok || gd.Tok != token.CONST {
+				continue
+			}
+			for _, sp := range gd.Specs {
+				vs, ok := sp.(*ast.ValueSpec)
+				if !ok || len(vs.Names) != len(vs.Values) {
+					continue
+				}
+				for i, n := range vs.Names {
+					if bl, ok := vs.Values[i].(*ast.BasicLit); ok && bl.Kind == token.STRING {
+						if sv, err := strconv.Unquote(bl.Value); err == nil {
+							out[n.Name] = sv
+						}
+					}
+				}
+			}
+		}
+	}
+	return out
+}
+
+// pkgVarLit: the composite literal a package-level variable is initialised with (nil when it is not one)
+func (t *tr) pkgVarLit(name string) *ast.CompositeLit {
+	if t.pkg == nil {
+		return nil
+	}
+	for _, f := range t.pkg.files {
+		for _, d := range f.Decls {
+			gd, ok := d.(*ast.GenDecl)
+			if !ok || gd.Tok != token.VAR {
+				continue
+			}
+			for _, sp := range gd.Specs {
+				vs, ok := sp.(*ast.ValueSpec)
+				if !ok || len(vs.Names) != 1 || len(vs.Values) != 1 || vs.Names[0].Name != name {
+					continue
+				}
+				cl, _ := vs.Values[0].(*ast.CompositeLit)
+				return cl
+			}
+		}
+	}
+	return nil
+}
+
+// boolTableKeys: for `var T = [N]bool{k: true, …}` the keys (as Lean characters or numbers); ok=false when T is not such a table
+func (t *tr) boolTableKeys(name string) ([]string, bool) {
+	cl := t.pkgVarLit(name)
+	if cl == nil {
+		return nil, false
+	}
+	at, ok := cl.Type.(*ast.ArrayType)
+	if !ok || at.Len == nil || exprString(at.Elt) != "bool" {
+		return nil, false
+	}
+	var keys []string
+	for _, el := range cl.Elts {
+		kv, ok := el.(*ast.KeyValueExpr)
+		if !ok || exprString(kv.Value) != "true" {
+			return nil, false
+		}
+		k, err := t.expr(kv.Key)
+		if err != nil {
+			return nil, false
+		}
+		keys = append(keys, k)
+	}
+	return keys, true
+}
+
+// stringSetKeys: for `var M = map[string]struct{}{"a": {}, …}` or `map[string]bool{"a": true, …}` the keys as Lean strings
+func (t *tr) stringSetKeys(name string) ([]string, bool) {
+	cl := t.pkgVarLit(name)
+	if cl == nil {
+		return nil, false
+	}
+	mt, ok := cl.Type.(*ast.MapType)
+	if !ok || exprString(mt.Key) != "string" {
+		return nil, false
+	}
+	isBool := exprString(mt.Value) == "bool"
+	var keys []string
+	for _, el := range cl.Elts {
+		kv, ok := el.(*ast.KeyValueExpr)
+		if !ok {
+			return nil, false
+		}
+		if isBool && exprString(kv.Value) != "true" {
+			return nil, false
+		}
+		k, err := t.expr(kv.Key)
+		if err != nil {
+			return nil, false
+		}
+		keys = append(keys, k)
+	}
+	return keys, true
+}
+
 var leanKeywords = map[string]bool{"open": true, "close": true, "end": true, "at": true, "from": true, "in": true, "then": true, "else": true, "if": true, "fun": true, "let": true, "have": true, "show": true, "match": true, "with": true, "do": true, "where": true, "def": true, "theorem": true, "instance": true, "namespace": true, "section": true, "variable": true, "import": true, "prefix": true, "infix": true, "notation": true, "macro": true, "syntax": true, "deriving": true, "structure": true, "class": true, "inductive": true, "mutual": true, "private": true, "protected": true, "partial": true, "unsafe": true, "nomatch": true, "fix": true, "val": true}
 
 func leanIdent(s string) string {
@@ -154,6 +262,11 @@ func (t *tr) expr(e ast.Expr) (string, error) {
 		if l, ok := t.slices[x.Name]; ok {
 			return l, nil
 		}
+		if x.Obj == nil || x.Obj.Kind == ast.Con {
+			if sv, ok := t.pkgStringConsts()[x.Name]; ok {
+				return leanStr(sv), nil
+			}
+		}
 		return leanIdent(x.Name), nil
 	case *ast.UnaryExpr:
 		if x.Op == token.NOT {
@@ -220,6 +333,34 @@ func (t *tr) expr(e ast.Expr) (string, error) {
 		key := exprString(x)
 		if v, ok := t.byteVar[key]; ok {
 			return v, nil
+		}
+		// a lookup in a package-level table of booleans / a set of strings: membership in its key list
+		if id, ok := x.X.(*ast.Ident); ok {
+			if keys, ok := t.boolTableKeys(id.Name); ok {
+				ix, err := t.expr(x.Index)
+				if err != nil {
+					return "", err
+				}
+				var alts []string
+				for _, k := range keys {
+					alts = append(alts, "(ix_ == "+k+")")
+				}
+				if len(alts) == 0 {
+					return "false", nil
+				}
+				return "(let ix_ := " + ix + "; (" + strings.Join(alts, " || ") + "))", nil
+			}
+			if cl := t.pkgVarLit(id.Name); cl != nil {
+				if mt, ok := cl.Type.(*ast.MapType); ok && exprString(mt.Value) == "bool" {
+					if keys, ok := t.stringSetKeys(id.Name); ok {
+						ix, err := t.expr(x.Index)
+						if err != nil {
+							return "", err
+						}
+						return "(([" + strings.Join(keys, ", ") + "] : List Str).contains " + ix + ")", nil
+					}
+				}
+			}
 		}
 		return "", t.errf(e, "index expression %s outside a byte loop", key)
 	case *ast.CallExpr:
@@ -369,12 +510,40 @@ func (t *tr) stmts(list []ast.Stmt, cont string, wrap func(string) string) (stri
 		}
 		return "(let " + leanIdent(id.Name) + " := " + e + "; " + r + ")", nil
 	case *ast.IfStmt:
+		var c string
+		var err error
 		if x.Init != nil {
-			return "", t.errf(s, "if with init")
-		}
-		c, err := t.expr(x.Cond)
-		if err != nil {
-			return "", err
+			// `if _, ok := SET[key]; ok` / `!ok` over a package-level set of strings
+			as, isAs := x.Init.(*ast.AssignStmt)
+			good := false
+			if isAs && as.Tok == token.DEFINE && len(as.Lhs) == 2 && len(as.Rhs) == 1 && exprString(as.Lhs[0]) == "_" {
+				if ie, ok := as.Rhs[0].(*ast.IndexExpr); ok {
+					if id, ok := ie.X.(*ast.Ident); ok {
+						if keys, ok := t.stringSetKeys(id.Name); ok {
+							ix, e2 := t.expr(ie.Index)
+							if e2 != nil {
+								return "", e2
+							}
+							mem := "(([" + strings.Join(keys, ", ") + "] : List Str).contains " + ix + ")"
+							okName := exprString(as.Lhs[1])
+							switch strings.ReplaceAll(exprString(x.Cond), " ", "") {
+							case okName:
+								c, good = mem, true
+							case "!" + okName:
+								c, good = "(!"+mem+")", true
+							}
+						}
+					}
+				}
+			}
+			if !good {
+				return "", t.errf(s, "if with init")
+			}
+		} else {
+			c, err = t.expr(x.Cond)
+			if err != nil {
+				return "", err
+			}
 		}
 		after, err := restT()
 		if err != nil {
